@@ -75,9 +75,10 @@ class UeSequence:
                  normalize: bool = False):
         self._n_cs = n_cs
         self._root_index = root_seq.index
-        self._normalized = normalize
+        # `normalize` may be a numpy bool (np.True_ is not the `True` object)
+        self._normalized = bool(normalize)
 
-        if normalize is True:
+        if self._normalized:
             ndim = user_seq_array.ndim
             if ndim == 1:
                 # No cover code -> user_seq_array is a 1D array
